@@ -1,5 +1,6 @@
 pub mod c01;
 pub mod c02;
+pub mod c03;
 pub mod c04;
 pub mod c07;
 pub mod c08;
@@ -23,6 +24,7 @@ pub fn dispatch(id: &str, args: &RunArgs) -> i32 {
         "C10" => run(&c10::C10, args),
         "C11" => run(&c11::C11, args),
         "C12" => run(&c12::C12, args),
+        "C03" => run(&c03::C03, args),
         "C04" => run(&c04::C04, args),
         "C05" => run(&c05::C05, args),
         _ => {
